@@ -74,7 +74,8 @@ PROPS = {
         "claim": "Kernel-checked for ALL inputs: the md5-crypt, SHA-crypt, Sun-MD5 and sha1-crypt skeletons return a key for every password length and every hash function (the loop arithmetic that panicked for long passwords), "
                  "a salt drawn by Encoding.Rand violates no guard clause, every documented prefix is registered with its package's Check, and Check succeeds iff the digest re-derived from the hash's own fields equals the stored one. "
                  "The round trip of the ten shipped layouts is C10's. On the real code NewHash→Check→crypt.Check is run on every boundary length, and the generated hash string is byte-identical with the model's under scripted crypto/rand.",
-        "note": "Partial: the composition 'NewHash then Check = nil' is not yet one end-to-end theorem (it needs the per-shape round trips of C10); DES/bcrypt/Argon2 derivations are total by construction in the model (no partial operation) and tied by correspondence.",
+        "note": "Kernel-checked END TO END on the model for all ten schemes and EVERY request: EndToEnd.newHash_then_check_<scheme> (newHash S r = ok h → check S h r.password = nil; Key treated as an opaque function), newHash_ok_<scheme> / newHash_total_<scheme> (NewHash returns a non-empty hash on the scheme's domain; for md5/sha*/sunmd5/nthash under the named hypothesis that the hash primitive returns digests of its size; bcrypt: success given a 23-byte key), newHash_empty_iff_md5/des (the documented quirk: md5/des NewHash ignore Key's error). "
+                "Hypotheses forced by the proofs and checked on Go: sunmd5 with rounds ≠ 0 needs at least one entropy byte (a failing entropy read panics in Go); sha1/argon2 costs < 2^32 (typing). Partial: the tie of the scheme-level model to Go is the byte-for-byte correspondence of NewHash/Check/Params under scripted entropy.",
         "rule": "scheme: per scheme 18 password lengths at quick (0,1,7,8,9,16,31,32,33,63,64,65,72,73,128,254,255,256 clipped to the scheme's maximum; every length 0..300 at thorough) with 8-bit NUL-free content, "
                 "costs at the cheap end of [Min,Max]; NewHash under scripted entropy (Go string must equal the model's byte for byte, same number of entropy bytes consumed), Check and crypt.Check must return nil, Params compared; "
                 "near-miss passwords and digest substitutions (C02) ride along; non-trivial/distinct = distinct generated hashes",
@@ -219,7 +220,8 @@ PROPS = {
         "technique": "Lean 4 proof (Params and Check apply the same defaults — decided on the regenerated flow IR; canonical-domain round trips of the ten layouts) + byte-for-byte NewHash correspondence and an independent canonical-layout recogniser on Go",
         "claim": "Kernel-checked on regenerated IR/shapes: Params and Check of every scheme contain the same default-filling statements; every canonical-domain value of the ten layouts marshals to a string that unmarshals to the same fields (C10.canonical_*, roundtrip_*); Check succeeds iff Key on the extracted parameters re-encodes to the stored digest (C02.check_ok_iff, where the extracted parameters are exactly what Params returns in the model). "
                  "On Go: every generated hash matches an independently written regular expression of the canonical layout, Params returns the requested cost/options and the generated salt, and the hash string equals the model's reassembly byte for byte.",
-        "note": "Partial: 'NewHash output is canonical' is checked on Go by the independent recogniser and by byte-identity with the model, not yet as a Lean theorem about the model's output for all inputs.",
+        "note": "Kernel-checked END TO END on the model for all ten schemes and every request: EndToEnd.newHash_canonical_<scheme> (the returned string is accepted by the independent recogniser Spec/Grammar.lean with the documented prefix, the requested cost in canonical decimal / two-digit / 4-symbol form, a salt of the regenerated default length over the alphabet, a digest of the fixed length over the alphabet, and Key's own result re-encoded) and params_of_newHash_<scheme> (Params returns the request and the drawn salt). "
+                "On Go the same is checked by an independently written regular expression, by byte-identity with the model, and by descrypt.EncodeInt/DecodeInt against the model on every 6-bit boundary. Partial: model↔Go tie is differential.",
         "rule": "scheme: see C01; canonical-layout regular expression per scheme; Params compared with the model; non-trivial/distinct = distinct generated hashes",
         "trusted": COMMON_TRUST,
         "assumptions": [],
